@@ -65,8 +65,8 @@ let pfx_op (f : string list) =
   last_op := f;
   (match f with "ans" :: j :: src :: _ -> Hashtbl.replace i_ans_src j src | _ -> ());
   match f with
-  | ["pa"; n] -> m_pub := announce (n_of_dec n) !m_pub
-  | ["pw"; n] -> m_pub := withdraw (n_of_dec n) !m_pub
+  | ["pa"; n] | ["ra"; n] -> m_pub := announce (n_of_dec n) !m_pub
+  | ["pw"; n] | ["rw"; n] -> m_pub := withdraw (n_of_dec n) !m_pub
   | ["jnew"; j] -> Hashtbl.replace m_peers (int_of_string j) peer_new
   | ["jreach"; j; b] -> let j = int_of_string j in Hashtbl.replace m_peers j (set_reach (b = "1") (peer j))
   | ["jsync"; j; _; v] -> let j = int_of_string j in Hashtbl.replace m_peers j (on_sync (n_of_dec v) (peer j))
@@ -234,8 +234,20 @@ let net_obs (f : string list) =
       if show_rt !i_rt <> l then oracle "fib-prefixes-map-differs-from-command-fold" (Printf.sprintf "fold=%s map=%s" (show_rt !i_rt) l)
   | _ -> Printf.printf "BADLINE %d obs %s\n" !lineno (String.concat " " f)
 
+(* PrefixTable.Apply on arbitrary op lists (reset + adds + removes, duplicates) against apply_ops / apply_dirty *)
+let m_pfxsets : (string, n list) Hashtbl.t = Hashtbl.create 17
+let apply_obs router reset adds rems dirty set =
+  let o = { ol_reset = (reset = "1"); ol_adds = (if adds = "-" then [] else List.map n_of_dec (String.split_on_char ',' adds));
+            ol_rems = (if rems = "-" then [] else List.map n_of_dec (String.split_on_char ',' rems)) } in
+  let cur = try Hashtbl.find m_pfxsets router with Not_found -> [] in
+  let nw = apply_ops o cur in
+  Hashtbl.replace m_pfxsets router nw;
+  let m = csv_of_set nw ^ " " ^ b01 (apply_dirty o) and i = set ^ " " ^ dirty in
+  if m <> i then diverge "apply" m i
+
 let fib_obs (f : string list) =
   match f with
+  | ["apply"; router; reset; adds; rems; dirty; set] -> apply_obs router reset adds rems dirty set
   | ["cmds"; l] ->
       let items = if l = "-" then [] else String.split_on_char ',' l in
       let parsed = List.map (fun s -> (s, parse_cmd s)) items in
@@ -267,7 +279,7 @@ let () =
           Hashtbl.reset m_peers; Hashtbl.reset i_hist; Hashtbl.reset i_last; Hashtbl.reset i_ans_src; i_init := s0
       | "case" :: "fib" :: k :: _ ->
           kind := "fib"; case_id := "fib" ^ k; incr n_cases;
-          m_fib := fib_empty; m_rt := []; i_rt := []; m_cmds := []
+          m_fib := fib_empty; m_rt := []; i_rt := []; m_cmds := []; Hashtbl.reset m_pfxsets
       | "op" :: f -> incr n_ops; (match !kind with "pfx" -> pfx_op f | _ -> ())
       | "tab" :: f -> fib_tab f
       | "case" :: "net" :: k :: _ ->
